@@ -482,7 +482,7 @@ static void perturb_schedule(Plan &p, Rng &r, bool invocation) {
 	if (r.coin(1, 2)) p.placement = 1;
 	if (r.coin(1, 2)) p.gapmax = gaps[r.below(4)];
 	if (r.coin(2, 3)) p.fill = 1 + (int)r.below(3);
-	if (r.coin(1, 2)) p.free_policy = 1;
+	if (r.coin(1, 2)) p.free_policy = 1 + (int)r.below(2);
 	if (r.coin(1, 2)) p.realloc_policy = 1;
 	if (r.coin(1, 2)) p.zero_policy = 1;
 	if (r.coin(1, 2)) p.chunk = chunks[r.below(7)];
@@ -847,9 +847,14 @@ static Verdict run_eval(const Plan &p, Outcome *out = nullptr, bool want_sink = 
 	return v;
 }
 
+static uint64_t g_shrink_steps = 0;
+static const uint64_t SHRINK_STEP_BUDGET = 400000000ULL;  // simulated steps, not wall-clock: minimisation stays a function of the plan
+
 static bool still(const Plan &p, const Verdict &want) {
 	g_shrink_runs++;
-	Verdict v = run_eval(p);
+	Outcome o;
+	Verdict v = run_eval(p, &o);
+	g_shrink_steps += o.r.steps + 20000;
 	return v.cls == want.cls && v.sig == want.sig;
 }
 
@@ -868,7 +873,7 @@ static std::vector<std::string> split_lines(const std::string &s) {
 static Plan minimise(Plan p, const Verdict &want) {
 	const int BUDGET = 1500;
 	auto attempt = [&](const Plan &t) {
-		if (g_shrink_runs >= BUDGET) return false;
+		if (g_shrink_runs >= BUDGET || g_shrink_steps >= SHRINK_STEP_BUDGET) return false;
 		if (still(t, want)) { p = t; return true; }
 		return false;
 	};
@@ -913,9 +918,9 @@ static Plan minimise(Plan p, const Verdict &want) {
 		for (size_t fi = 0; fi < p.files.size(); fi++) {
 			std::vector<std::string> lines = split_lines(p.files[fi].data);
 			size_t chunk = lines.size() / 2;
-			while (chunk >= 1 && g_shrink_runs < BUDGET) {
+			while (chunk >= 1 && g_shrink_runs < BUDGET && g_shrink_steps < SHRINK_STEP_BUDGET) {
 				bool any = false;
-				for (size_t at = 0; at < lines.size() && g_shrink_runs < BUDGET;) {
+				for (size_t at = 0; at < lines.size() && g_shrink_runs < BUDGET && g_shrink_steps < SHRINK_STEP_BUDGET;) {
 					std::vector<std::string> l2(lines.begin(), lines.begin() + at);
 					size_t end = std::min(lines.size(), at + chunk);
 					l2.insert(l2.end(), lines.begin() + end, lines.end());
@@ -1066,7 +1071,7 @@ int main(int argc, char **argv) {
 		if (p.placement) st.axes["placement=descending"]++;
 		if (p.gapmax) st.axes["gaps"]++;
 		if (p.fill) st.axes["fill=" + std::to_string(p.fill)]++;
-		if (p.free_policy) st.axes["free=lifo-reuse"]++; else st.axes["free=poison-noreuse"]++;
+		st.axes[p.free_policy == 1 ? "free=lifo-reuse" : p.free_policy == 2 ? "free=keep-contents" : "free=poison-noreuse"]++;
 		if (p.realloc_policy) st.axes["realloc=in-place"]++; else st.axes["realloc=always-move"]++;
 		if (p.zero_policy) st.axes["malloc(0)=NULL"]++;
 		if (p.chunk) st.axes["chunk=" + std::to_string(p.chunk)]++;
@@ -1098,12 +1103,22 @@ int main(int argc, char **argv) {
 		// gate 1: same plan twice, same event hash and verdict
 		Outcome o2;
 		Verdict v2 = run_eval(p, &o2, false);
+		if (sanitized_build() && (v2.cls != v.cls || v2.sig != v.sig)) {
+			// the sanitized build does not own the heap (ASan's allocator) and therefore not every address or stale byte;
+			// what it cannot repeat it does not report - the plain build decides address- and garbage-dependent behaviour
+			printf("NOTE sanitized build: %s | %s at index %llu did not repeat when the same plan was run again; not reported\n", v.cls.c_str(), v.sig.c_str(), (unsigned long long)index);
+			st.unreproducible[v.cls + " | " + v.sig] += st.verdicts[v.cls + " | " + v.sig];
+			st.verdicts.erase(v.cls + " | " + v.sig);
+			unrepro.insert(key);
+			continue;
+		}
 		if (v2.cls != v.cls || v2.sig != v.sig || (!sanitized_build() && o2.r.ev_hash != o.r.ev_hash)) {
 			printf("HARNESS-ERROR nondeterministic: index=%llu first=%s/%s/%s second=%s/%s/%s\n", (unsigned long long)index, v.cls.c_str(), v.sig.c_str(), hex64(o.r.ev_hash).c_str(), v2.cls.c_str(), v2.sig.c_str(), hex64(o2.r.ev_hash).c_str());
 			gate_fail++;
 			continue;
 		}
 		g_shrink_runs = 0;
+		g_shrink_steps = 0;
 		Plan min = opt.count("no-shrink") ? p : minimise(p, v);
 		Outcome om;
 		Verdict vm = run_eval(min, &om, true);
